@@ -76,9 +76,9 @@ SEQ = {
 }
 
 CONCUR = {
-    'C05': dict(quick=dict(limit=60, limit3=40), thorough=dict(limit=2000, limit3=600)),
-    'C06': dict(quick=dict(limit=60, limit3=40), thorough=dict(limit=4000, limit3=600)),
-    'C07': dict(quick=dict(limit=60, limit3=40), thorough=dict(limit=4000, limit3=600)),
+    'C05': dict(quick=dict(limit=60, limit3=40), thorough=dict(limit=2000, limit3=3000)),
+    'C06': dict(quick=dict(limit=60, limit3=40), thorough=dict(limit=4000, limit3=3000)),
+    'C07': dict(quick=dict(limit=60, limit3=40), thorough=dict(limit=4000, limit3=3000)),
 }
 CONCUR_MON = {
     'C05': ('C05_Commits', 'C05_AtMostOne', 'ErrorJustified:prov', 'Escaped'),
